@@ -16,8 +16,8 @@
                an entry remembers how many redirects it took and is ignored when the budget is smaller). *)
 EXTENDS Integers, Sequences, FiniteSets, SequencesExt
 
-Kinds == {"activity", "webfinger"}
-Tolerated(kind) == IF kind = "activity" THEN {"activity", "ld", "json"} ELSE {"jrd", "json"}
+Kinds == {"activity", "webfinger", "narrow"}     \* narrow: one bare type is asked for and another is the only one tolerated
+Tolerated(kind) == IF kind = "activity" THEN {"activity", "ld", "json"} ELSE IF kind = "narrow" THEN {"json"} ELSE {"jrd", "json"}
 
 Err == [ok |-> FALSE, doc |-> "none", src |-> "none"]
 Ok(d, u) == [ok |-> TRUE, doc |-> d, src |-> u]
